@@ -548,6 +548,66 @@ func runC13(c *Ctx) {
 			}
 		}
 	}
+	// ---- rule-bearing parameters two and three at a time in one bucket (a rule must hold whatever else is there) ----
+	{
+		type part struct {
+			name string
+			gm   map[any]any
+			wm   []*Node
+		}
+		b1 := refcbor.NBstr([]byte{1})
+		parts := []part{
+			{"crit-valid", map[any]any{int64(2): []any{int64(4)}, int64(4): []byte{1}}, []*Node{refcbor.NInt(2), refcbor.NArr(refcbor.NInt(4)), refcbor.NInt(4), b1}},
+			{"crit-absent-label", map[any]any{int64(2): []any{int64(99)}}, []*Node{refcbor.NInt(2), refcbor.NArr(refcbor.NInt(99))}},
+			{"iv", map[any]any{int64(5): []byte{1}}, []*Node{refcbor.NInt(5), b1}},
+			{"partial-iv", map[any]any{int64(6): []byte{1}}, []*Node{refcbor.NInt(6), b1}},
+			{"content-type-ok", map[any]any{int64(3): "a/b"}, []*Node{refcbor.NInt(3), refcbor.NTstr("a/b")}},
+			{"content-type-bad", map[any]any{int64(3): "ab"}, []*Node{refcbor.NInt(3), refcbor.NTstr("ab")}},
+			{"typ-uint", map[any]any{int64(16): int64(7)}, []*Node{refcbor.NInt(16), refcbor.NInt(7)}},
+			{"typ-bad", map[any]any{int64(16): []byte{1}}, []*Node{refcbor.NInt(16), b1}},
+			{"alg-int", map[any]any{int64(1): int64(-7)}, []*Node{refcbor.NInt(1), refcbor.NInt(-7)}},
+			{"alg-bstr", map[any]any{int64(1): []byte{1}}, []*Node{refcbor.NInt(1), b1}},
+			{"kid-int", map[any]any{int64(4): int64(1)}, []*Node{refcbor.NInt(4), refcbor.NInt(1)}},
+			{"countersignature0-int", map[any]any{int64(9): int64(1)}, []*Node{refcbor.NInt(9), refcbor.NInt(1)}},
+			{"unknown", map[any]any{int64(99): "x"}, []*Node{refcbor.NInt(99), refcbor.NTstr("x")}},
+			{"text-label", map[any]any{"t": int64(1)}, []*Node{refcbor.NTstr("t"), refcbor.NInt(1)}},
+		}
+		combine := func(idx ...int) {
+			gm := map[any]any{}
+			var kids []*Node
+			name := ""
+			seen := map[string]bool{}
+			for _, i := range idx {
+				for k, v := range parts[i].gm {
+					if _, dup := gm[k]; dup {
+						return // two parts set the same label: not a combination of distinct parameters
+					}
+					gm[k] = v
+				}
+				for j := 0; j+1 < len(parts[i].wm); j += 2 {
+					ck := string(refcbor.Canon(parts[i].wm[j]))
+					if seen[ck] {
+						return
+					}
+					seen[ck] = true
+					kids = append(kids, refcbor.Clone(parts[i].wm[j]), refcbor.Clone(parts[i].wm[j+1]))
+				}
+				name += parts[i].name + "+"
+			}
+			wm, _ := refcbor.Parse(refcbor.Canon(refcbor.NMap(kids...)))
+			for _, protected := range []bool{true, false} {
+				c13judgeBucket(rec, fmt.Sprintf("combination/%sprotected=%v", name, protected), gm, wm, protected)
+			}
+		}
+		for a := 0; a < len(parts); a++ {
+			for b := a + 1; b < len(parts); b++ {
+				combine(a, b)
+				for cc := b + 1; cc < len(parts); cc++ {
+					combine(a, b, cc)
+				}
+			}
+		}
+	}
 	// ---- duplicate labels under different spellings ----
 	for _, l := range []int64{1, 4, 33, 99, 200} {
 		for t1 := 0; t1 < gen.IntSpellings; t1++ {
